@@ -14,6 +14,26 @@
 
 package plugin
 
+import "fmt"
+
+// fastReader is implemented by the generated Request and Response.
+type fastReader interface {
+	FastRead(b []byte) (int, error)
+}
+
+// safeFastRead decodes bs into v. Malformed input (for example the output of a
+// misbehaving plugin) may make the fast codec panic; such a panic is reported
+// as an error.
+func safeFastRead(v fastReader, bs []byte) (err error) {
+	defer func() {
+		if r := recover(); r != nil {
+			err = fmt.Errorf("malformed data: %v", r)
+		}
+	}()
+	_, err = v.FastRead(bs)
+	return err
+}
+
 // MarshalRequest encodes a request with binary protocol.
 func MarshalRequest(req *Request) ([]byte, error) {
 	return req.FastAppend(nil), nil
@@ -22,7 +42,7 @@ func MarshalRequest(req *Request) ([]byte, error) {
 // UnmarshalRequest decodes a request with binary protocol.
 func UnmarshalRequest(bs []byte) (*Request, error) {
 	req := NewRequest()
-	if _, err := req.FastRead(bs); err != nil {
+	if err := safeFastRead(req, bs); err != nil {
 		return nil, err
 	}
 	if hasDataTrailerFeature(bs, featureCompressInclude) {
@@ -39,7 +59,7 @@ func MarshalResponse(res *Response) ([]byte, error) {
 // UnmarshalResponse decodes a response with binary protocol.
 func UnmarshalResponse(bs []byte) (*Response, error) {
 	res := NewResponse()
-	if _, err := res.FastRead(bs); err != nil {
+	if err := safeFastRead(res, bs); err != nil {
 		return nil, err
 	}
 	return res, nil
